@@ -408,3 +408,165 @@ func (p *Prog) pkgVarReadOnly(v *types.Var) bool {
 	}
 	return ok
 }
+
+// etaOverlay rewrites `g(xs, helper)` - a private, new (not in the reference
+// tree) module function passed as a value - into
+// `g(xs, func(a T) R { return helper(a) })`, so that the inliner can then pull
+// the helper's body into the literal and the rules see the predicate where it
+// is used. Only helpers whose parameters and results have predeclared types
+// are expanded (no import can be missing in the receiving file).
+func (p *Prog) etaOverlay() (map[string][]byte, []string) {
+	type job struct {
+		off  int
+		decl *ast.FuncDecl
+		name string
+	}
+	byFile := map[string][]job{}
+	predeclared := func(e ast.Expr) bool {
+		switch t := e.(type) {
+		case *ast.Ident:
+			switch t.Name {
+			case "string", "bool", "int", "int32", "int64", "uint", "uint32", "uint64", "byte", "rune", "error", "float64":
+				return true
+			}
+		case *ast.ArrayType:
+			if id, ok := t.Elt.(*ast.Ident); ok && t.Len == nil {
+				return id.Name == "string" || id.Name == "byte" || id.Name == "int"
+			}
+		}
+		return false
+	}
+	for _, f := range p.Funcs {
+		if f.Body == nil {
+			continue
+		}
+		fname := p.Fset.Position(f.Body.Pos()).Filename
+		if !inScopeFile(fname) {
+			continue
+		}
+		info := f.Pkg.TypesInfo
+		ast.Inspect(f.Body, func(n ast.Node) bool {
+			call, ok := n.(*ast.CallExpr)
+			if !ok {
+				return true
+			}
+			for _, a := range call.Args {
+				id, ok := a.(*ast.Ident)
+				if !ok {
+					continue
+				}
+				fo, ok := info.Uses[id].(*types.Func)
+				if !ok || fo.Exported() || fo.Pkg() != f.Pkg.Types {
+					continue
+				}
+				tf := p.FnOf(fo)
+				if tf == nil || tf.Decl == nil || tf.Decl.Recv != nil || knownFuncs[tf.Name] {
+					continue
+				}
+				okSig := tf.Decl.Type.Params != nil
+				for _, fl := range []*ast.FieldList{tf.Decl.Type.Params, tf.Decl.Type.Results} {
+					if fl == nil {
+						continue
+					}
+					for _, fd := range fl.List {
+						if !predeclared(fd.Type) {
+							okSig = false
+						}
+						if fl == tf.Decl.Type.Params && len(fd.Names) == 0 {
+							okSig = false
+						}
+						for _, nm := range fd.Names {
+							if nm.Name == "_" {
+								okSig = false
+							}
+						}
+					}
+				}
+				if !okSig {
+					continue
+				}
+				byFile[fname] = append(byFile[fname], job{p.Fset.Position(id.Pos()).Offset, tf.Decl, id.Name})
+			}
+			return true
+		})
+	}
+	if len(byFile) == 0 {
+		return nil, nil
+	}
+	overlay := map[string][]byte{}
+	var notes []string
+	for fn, js := range byFile {
+		src := p.Overlay[fn]
+		if src == nil {
+			var err error
+			if src, err = os.ReadFile(fn); err != nil {
+				continue
+			}
+		}
+		fset := token.NewFileSet()
+		file, err := parser.ParseFile(fset, fn, src, parser.ParseComments)
+		if err != nil {
+			continue
+		}
+		want := map[int]job{}
+		for _, j := range js {
+			want[j.off] = j
+		}
+		changed := false
+		astutil.Apply(file, func(c *astutil.Cursor) bool {
+			id, ok := c.Node().(*ast.Ident)
+			if !ok {
+				return true
+			}
+			j, hit := want[fset.Position(id.Pos()).Offset]
+			if !hit || id.Name != j.name {
+				return true
+			}
+			if _, isCall := c.Parent().(*ast.CallExpr); !isCall || c.Name() != "Args" {
+				return true
+			}
+			ft := &ast.FuncType{Params: &ast.FieldList{}}
+			var args []ast.Expr
+			for _, fd := range j.decl.Type.Params.List {
+				nf := &ast.Field{Type: freshType(fd.Type)}
+				for _, nm := range fd.Names {
+					nf.Names = append(nf.Names, ast.NewIdent(nm.Name))
+					args = append(args, ast.NewIdent(nm.Name))
+				}
+				ft.Params.List = append(ft.Params.List, nf)
+			}
+			inner := &ast.CallExpr{Fun: ast.NewIdent(j.name), Args: args}
+			var body ast.Stmt = &ast.ExprStmt{X: inner}
+			if j.decl.Type.Results != nil && len(j.decl.Type.Results.List) > 0 {
+				ft.Results = &ast.FieldList{}
+				for _, fd := range j.decl.Type.Results.List {
+					ft.Results.List = append(ft.Results.List, &ast.Field{Type: freshType(fd.Type)})
+				}
+				body = &ast.ReturnStmt{Results: []ast.Expr{inner}}
+			}
+			c.Replace(&ast.FuncLit{Type: ft, Body: &ast.BlockStmt{List: []ast.Stmt{body}}})
+			changed = true
+			notes = append(notes, fmt.Sprintf("expanded function value %s into a literal", j.name))
+			return false
+		}, nil)
+		if !changed {
+			continue
+		}
+		var buf bytes.Buffer
+		if err := format.Node(&buf, fset, file); err != nil {
+			continue
+		}
+		overlay[fn] = buf.Bytes()
+	}
+	return overlay, notes
+}
+
+func freshType(e ast.Expr) ast.Expr {
+	switch t := e.(type) {
+	case *ast.Ident:
+		return ast.NewIdent(t.Name)
+	case *ast.ArrayType:
+		return &ast.ArrayType{Elt: freshType(t.Elt)}
+	}
+	return e
+}
